@@ -71,6 +71,7 @@ type act struct {
 	freeVars []Val
 	name     string
 	caller   *act
+	lets     map[string]Val // contract abbreviations, evaluated at entry
 }
 
 const maxInlineDepth = 6
@@ -563,7 +564,7 @@ func (a *act) cutLoop(li *loopInfo, pre *State, reach Term) (*State, Term) {
 		st.alloc = na
 	}
 	for h := range li.mod.heaps {
-		st.heap[h] = log.fresh(h, e.cur.heapSorts[h])
+		e.heapReplace(st, h, log.fresh(h, e.cur.heapSorts[h]))
 	}
 	for k, leaves := range li.mod.locals {
 		if v, ok := st.locals[k]; ok && leaves != nil {
@@ -617,6 +618,7 @@ func (a *act) discover(li *loopInfo, pre *State) *modset {
 
 	head := &State{locals: map[any]Val{}, heap: map[string]Term{}, epoch: fmt.Sprintf("d%d.%d", c.discovery, li.head.Index)}
 	head.alloc = scratch.fresh("alloc", SInt)
+	head.epochBound = head.alloc
 	for k, v := range pre.locals {
 		if v.T == nil {
 			head.locals[k] = v
@@ -746,7 +748,7 @@ func frameFormula(h0, h1, alloc0 Term, targets []Term) Term {
 func (a *act) checkInvariants(li *loopInfo, st *State, guard Term, when string, pos token.Pos) {
 	tag := fmt.Sprintf("loop[%s]", li.anchorName())
 	for _, ai := range a.autoInvariants(li, st) {
-		a.obligationX("invariant", fmt.Sprintf("%s/%s:%s", tag, ai.label, when), pos, guard, ai.t, li.spec == nil)
+		a.obligationX("invariant", fmt.Sprintf("%s/%s:%s", tag, ai.label, when), pos, guard, ai.t, li.spec == nil || strings.HasPrefix(ai.label, "frame:"))
 	}
 	if li.spec == nil {
 		return
